@@ -9,6 +9,9 @@ From Relay Require Import Base.Prelude Base.AList Model.Agg.
    the harness's table of streams or of feeds; whether it is a stream is the model's decision *)
 Definition cl (i : N) (name : list N) (n : N) : client := (i, topic_of_name (str name) n).
 
+(* the default rule keys stream/s1, stream/s2, .. are emitted by number alone: none is the reserved word *)
+Definition sid_plain (n : N) : N := n.
+
 Fixpoint dedup (l : list N) : list N :=
   match l with
   | [] => []
